@@ -27,6 +27,9 @@ def correspondence(res, sizes):
     """runs the harness sub-domains, evaluates the model on every case; returns (cases, failing indices)"""
     cases = []
     stats = []
+    ok, out = lib.build_coq(["theories/Model/MonitorCheck.vo"])   # Props/C14.vo does not depend on it
+    if not ok:
+        raise lib.Fail("Model/MonitorCheck.v does not build:\n" + out[-3000:])
     for sub, n in sizes:
         out = lib.run_harness("monitor", sub, res.seed, n, res.tier)
         cases += out.get("CASE", [])
